@@ -5,12 +5,14 @@
 (* rule_mode(query) block - Add, `with refinement(c):`, `with alternative(c):`*)
 (* and leaving a block - so BFS enumerates every tree up to MaxNodes once.   *)
 EXTENDS EQLSyntax, Json
-CONSTANTS MaxNodes, NConds, NV
+CONSTANTS MaxNodes, NConds, NV,
+          WithNext      \* TRUE: `with next_rule(c):` blocks are written too (a branch that is always consulted as well)
 
 Nil == [k |-> "nil"]
 \* alts: the alternatives written in this node's block, in order (each may have alternatives in its own block)
 \* reflast: the refinement block was written after (some of) the alternative blocks of the same node
-Node(tag, cond, ref, alts) == [k |-> "node", tag |-> tag, cond |-> cond, ref |-> ref, alts |-> alts, reflast |-> FALSE]
+\* edge: how the node hangs on the chain it was written into - "alt" (with alternative) or "next" (with next_rule)
+Node(tag, cond, ref, alts) == [k |-> "node", tag |-> tag, cond |-> cond, ref |-> ref, alts |-> alts, reflast |-> FALSE, edge |-> "alt"]
 
 \* branch conditions over the base's variables
 Conds ==
@@ -36,7 +38,7 @@ OpenBranch(kind, c) ==
   /\ done = <<>> /\ n < MaxNodes
   /\ (kind = "ref" => Top.node.ref = Nil)                               \* one refinement per node, before or after alternatives
   /\ open' = Append(IF kind = "ref" THEN [open EXCEPT ![Len(open)].node.reflast = (Top.node.alts # <<>>)] ELSE open,
-                    [node |-> Node(n + 1, Conds[c], Nil, <<>>), as |-> kind])
+                    [node |-> [Node(n + 1, Conds[c], Nil, <<>>) EXCEPT !.edge = IF kind = "next" THEN "next" ELSE "alt"], as |-> kind])
   /\ n' = n + 1 /\ UNCHANGED done
 \* leaving the innermost block attaches the finished node to its parent
 CloseBranch ==
@@ -48,7 +50,7 @@ CloseBranch ==
      IN open' = Append(SubSeq(open, 1, Len(open) - 2), newParent)
   /\ UNCHANGED <<n, done>>
 Finish == /\ done = <<>> /\ Len(open) = 1 /\ done' = <<open[1].node>> /\ UNCHANGED <<open, n>>
-Next == \/ \E kind \in {"ref", "alt"}, c \in 1..Len(Conds) : OpenBranch(kind, c)
+Next == \/ \E kind \in {"ref", "alt"} \cup (IF WithNext THEN {"next"} ELSE {}), c \in 1..Len(Conds) : OpenBranch(kind, c)
         \/ CloseBranch
         \/ Finish
 Spec == Init /\ [][Next]_vars
